@@ -611,6 +611,7 @@ func serialShapes(thorough bool) []bmShape {
 		{"8 chunks, one run (a whole byte of run flags)", P("ak", 8, "akeys", 4, "ac0", 1, "ac1", 1, "ac2", 1, "ac3", 201, "ac4", 1, "ac5", 1, "ac6", 1, "ac7", 1), 0, 0, 0},
 		{"B(lo),A1", P("ak", 2, "akeys", 4, "ac0", 100, "ac1", 1), 0, 0, 0},
 		{"A*(4096),A1: the largest array chunk", P("ak", 2, "akeys", 4, "ac0", 14, "ac1", 1), 0, 0, 0},
+		{"B(hi) possibly full,A1: a bitmap chunk with up to 65536 values", P("ak", 2, "akeys", 4, "ac0", 103, "ac1", 1), 0, 0, 0},
 		{"Rfull,A1", P("ak", 2, "akeys", 3, "ac0", 220, "ac1", 1), 0, 0, 0},
 		{"R2", P("ak", 1, "akeys", 2, "ac0", 202), 0, 0, 1},
 		{"A3,B(lo),R1", P("ak", 3, "akeys", 4, "ac0", 3, "ac1", 100, "ac2", 201), 0, 0, 1},
@@ -623,6 +624,9 @@ func c05Instances(add func(*Instance), thorough bool) {
 		base := with(b.p, "L", 7, "eff", 1, "acow", 0, "tail", 2, "chunk", 3, "xb", 0, "xm", 262143)
 		if b.p["ac0"] == 100 || b.p["ac1"] == 100 || b.p["ac0"] == 14 {
 			base = with(base, "xb", 4150, "xm", 15) // the follow-up Add goes into a bitmap chunk / a 4096-element array: windowed argument
+		}
+		if b.p["ac0"] == 103 {
+			base = with(base, "xb", 56, "xm", 15)
 		}
 		for rd := 0; rd <= 4; rd++ {
 			add(&Instance{Func: "VerifC05RoundTrip", Tier: b.tier, Note: b.name, Params: with(base, "wr", 0, "rd", rd)})
@@ -649,9 +653,12 @@ func c05Instances(add func(*Instance), thorough bool) {
 func c06Instances(add func(*Instance), thorough bool) {
 	for _, b := range serialShapes(thorough) {
 		win := P("xb", 0, "xm", -1)
-		hasB := b.p["ac0"] == 100 || b.p["ac1"] == 100 || b.p["ac0"] == 14
+		hasB := b.p["ac0"] == 100 || b.p["ac1"] == 100 || b.p["ac0"] == 14 || b.p["ac0"] == 103
 		if hasB {
 			win = P("xb", 4150, "xm", 15)
+		}
+		if b.p["ac0"] == 103 {
+			win = P("xb", 56, "xm", 15)
 		}
 		base := with(b.p, "L", 7, "eff", 1, "acow", 0)
 		for k, v := range win {
@@ -706,7 +713,7 @@ func c10Instances(add func(*Instance), thorough bool) {
 	}
 	// 2. proper prefixes of valid streams
 	for _, b := range serialShapes(thorough) {
-		if b.p["ak"] == 0 || b.p["ac0"] == 100 || b.p["ac1"] == 100 || b.p["ac0"] == 14 {
+		if b.p["ak"] == 0 || b.p["ac0"] == 100 || b.p["ac1"] == 100 || b.p["ac0"] == 14 || b.p["ac0"] == 103 {
 			continue
 		}
 		for rd := 0; rd <= 3; rd++ {
@@ -755,7 +762,6 @@ func c10Instances(add func(*Instance), thorough bool) {
 func c13Instances(add func(*Instance), thorough bool) {
 	shapes := serialShapes(thorough)
 	shapes = append(shapes,
-		bmShape{"B(hi) possibly full,A1", P("ak", 2, "akeys", 4, "ac0", 103, "ac1", 1), 0, 0, 0},
 		bmShape{"R1,B(lo),A1 (bitmap-run-array order)", P("ak", 3, "akeys", 4, "ac0", 201, "ac1", 100, "ac2", 1), 0, 0, 0},
 		bmShape{"A1,R1,B(lo)", P("ak", 3, "akeys", 4, "ac0", 1, "ac1", 201, "ac2", 100), 0, 0, 1},
 	)
